@@ -121,7 +121,7 @@ def _run_tape(tape, stack):
     f = [(tape.draw(4096), tape.draw(64)), (tape.draw(4096), tape.draw(64))]
     threaded = tape.draw(3) == 2
     preempt_class = tape.draw(4)
-    place_mode = tape.draw(2)
+    place_mode = tape.draw(3)          # 0 random pre-emption, 1 one placed pre-emption, 2 two placed pre-emptions (threads start eagerly)
     place_idx = tape.draw(1 << 20)
     place_to = tape.draw(4)
     straggle = tape.draw(3) == 2
@@ -134,6 +134,8 @@ def _run_tape(tape, stack):
         # the service runs with the library's DEBUG logging on: logging is not behaviour
         stack.enter_context(seams.debug_logging())
         run.probe('library_logging_at_debug_level')
+    place2_idx = tape.draw(1 << 20)
+    place2_to = tape.draw(4)
 
     spec = R.gen_service(tape, run, max_steps=10, threads=threaded)
     R.fill_outcomes(tape, run, spec)
@@ -177,11 +179,13 @@ def _run_tape(tape, stack):
     env_b = R.Env(spec, run, recorder)
     if has_spawn:
         p = [0.0, 0.02, 0.1, 0.4][preempt_class]
-        placements = {place_idx: place_to} if place_mode == 1 else None
+        placements = {place_idx: place_to} if place_mode == 1 else ({place_idx: place_to, place2_idx: place2_to} if place_mode == 2 else None)
         # (opcode-granularity pre-emption was tried - Sim(opcodes=True) - and dropped: sys.settrace opcode events on
         # several threads crash CPython 3.12.1 with a segmentation fault; races inside one source line stay invisible)
-        sim = Sim(tape, run, preempt_p=0.0 if place_mode == 1 else p, prim_p=0.0 if place_mode == 1 else max(p, 0.1),
-                  target_prefixes=[TARGET], placements=placements, max_steps=60000)
+        sim = Sim(tape, run, preempt_p=0.0 if place_mode else p, prim_p=0.0 if place_mode else max(p, 0.1),
+                  target_prefixes=[TARGET], placements=placements, max_steps=60000, eager_start=place_mode == 2, record_points=place_mode == 2)
+        if place_mode == 2:
+            run.probe('two_placed_preemptions')
         svc_b = R.Service(spec, env_b, recorder, thread_factory=R.sim_thread_factory(sim))
         run.probe('threaded_program')
 
@@ -201,6 +205,8 @@ def _run_tape(tape, stack):
         except SimLimit as ex:
             raise HarnessError('step cap in C04: %s' % ex)
         run.config['line_points'] = sim.line_points
+        if sim.point_owner is not None:
+            run.config['point_owner'] = list(sim.point_owner)
         run.nontrivial = bool(run.faults) or sim.switches > 2
     else:
         svc_b = R.Service(spec, env_b, recorder, thread_factory=R.inline_thread_factory)
@@ -218,11 +224,54 @@ def _run_tape(tape, stack):
     svc_c = R.Service(spec, env_c, rec_c, thread_factory=R.inline_thread_factory)
     out_c = outcome_of(svc_c.invoke)
     compare(run, 'disabled', spec, svc_a, out_a, svc_c, out_c)
+    disabled_call_shapes(run, rec_c, svc_c)
     run.check(not spy_c.calls, 'disabled_never_touches_cassette', 'cassette-call-while-disabled',
               lambda: 'with recording disabled the cassette saw %r' % (spy_c.calls,))
     run.ev('outcome', out_b[0], V.canon(out_b[1]) if out_b[0] == 'return' else type(out_b[1]).__name__,
            [tuple(c[:4]) for c in svc_b.checks], spy.calls)
     return run
+
+
+def disabled_call_shapes(run, recorder, svc):
+    """Pure pass-through means: whatever way the caller invokes the decorated callable, it behaves as the undecorated one
+    (keyword-only calls, no arguments at all, unhashable first arguments, classes that cannot be dictionary keys)."""
+    marker = object()
+
+    def free(*args, **kwargs):
+        return (marker, args, kwargs)
+
+    class Unhashable(type):
+        __hash__ = None
+
+    class Odd(Unhashable('OddBase', (object,), {})):
+        def run_it(self, order=0):
+            return (marker, order)
+    shapes = [
+        ('operation on a function called without arguments', recorder.operation()(free), (), {}),
+        ('operation on a function called with keywords only', recorder.operation()(free), (), {'order': 4}),
+        ('class operation called with a dict as first argument', recorder.class_operation()(free), ({'a': 1},), {}),
+        ('class operation called with a list as first argument', recorder.class_operation()(free), ([1, 2],), {'k': None}),
+        ('input called without arguments', recorder.intercept_input('shape_in')(free), (), {}),
+        ('static input called without arguments', recorder.static_intercept_input('shape_sin')(free), (), {}),
+        ('output called without arguments', recorder.intercept_output('shape_out')(free), (), {}),
+        ('static output called with keywords only', recorder.static_intercept_output('shape_sout')(free), (), {'x': 1}),
+    ]
+    for what, fn, args, kwargs in shapes:
+        try:
+            got = fn(*args, **kwargs)
+            ok = got[0] is marker and got[1] == args and got[2] == kwargs
+            why = 'returned %r' % (got,)
+        except Exception as ex:
+            ok, why = False, 'raised %r' % (ex,)
+        run.check(ok, 'disabled_is_pass_through', 'call-shape-not-passed-through', lambda: '[disabled] %s: %s' % (what, why))
+    try:
+        dec = recorder.operation()(Odd.run_it)
+        got = dec(Odd(), order=3)
+        ok, why = got == (marker, 3), 'returned %r' % (got,)
+    except Exception as ex:
+        ok, why = False, 'raised %r' % (ex,)
+    run.check(ok, 'disabled_is_pass_through', 'call-shape-not-passed-through', lambda: '[disabled] operation of a class that cannot be a dictionary key: %s' % why)
+    run.probe('disabled_call_shapes')
 
 
 def compare(run, label, spec, svc_a, out_a, svc_b, out_b):
@@ -311,6 +360,25 @@ def run_index(i, seed, tier, emit):
             for to in (0, 1):
                 tt = Tape(seed, prefix=[0, 0, 0, 0, 0, 2, 0, 1, idx, to])
                 emit(safe_run_tape(mod, tt), tt)
+        # <=2 pre-emptions over line points, for fire-and-forget workers (still inside an interception when the
+        # operation is finalised): every started thread runs first, pre-emption #1 at a line point of a worker,
+        # pre-emption #2 at a later line point of whoever runs then; capped by sampling with a stride
+        d3 = Tape(seed, prefix=[0, 0, 0, 0, 0, 2, 0, 2, 1 << 19, 0, 2])
+        r3 = safe_run_tape(mod, d3)
+        emit(r3, d3)
+        owner = r3.config.get('point_owner') or []
+        n3 = len(owner)
+        firsts = [k for k in range(n3) if owner[k] != 0]
+        budget = 400 if tier == 'quick' else 6000
+        if firsts and n3:
+            tail = list(d3.used[11:16])
+            per_first = max(1, budget // len(firsts))
+            for k in firsts:
+                rest = n3 - k + 40
+                stride2 = max(1, rest // per_first)
+                for m in range(k + 1, k + 1 + rest, stride2):
+                    tt = Tape(seed, prefix=[0, 0, 0, 0, 0, 2, 0, 2, k, 0, 2] + tail + [m, 0])
+                    emit(safe_run_tape(mod, tt), tt)
         # random pre-emption with random faults
         for n in range(20 if tier == 'quick' else 80):
             tt = Tape(hash((seed, n)) & 0xffffffffffff, prefix=[n % 3, (n * 7919) % 4096, (n * 31) % 64, 0, 0, 2, 1 + n % 3, 0])
